@@ -1,6 +1,8 @@
 from abc import ABCMeta, abstractmethod
 from fnmatch import fnmatch
 
+import six
+
 
 class TapeCassette(object):
     """
@@ -153,7 +155,8 @@ class TapeCassette(object):
             return False
 
         if isinstance(match_value, str):
-            return fnmatch(recorded_value, match_value)
+            # A pattern can only match string values
+            return isinstance(recorded_value, six.string_types) and fnmatch(recorded_value, match_value)
 
         return recorded_value == match_value
 
@@ -163,16 +166,20 @@ class TapeCassette(object):
         Check if this is an operator metadata filter and its value is in range
         """
         result = False
-        if metadata_value['operator'] == '=':
-            result = recorded_value == metadata_value['value']
-        if metadata_value['operator'] == '<':
-            result = recorded_value < metadata_value['value']
-        if metadata_value['operator'] == '<=':
-            result = recorded_value <= metadata_value['value']
-        if metadata_value['operator'] == '>':
-            result = recorded_value > metadata_value['value']
-        if metadata_value['operator'] == '>=':
-            result = recorded_value >= metadata_value['value']
+        try:
+            if metadata_value['operator'] == '=':
+                result = recorded_value == metadata_value['value']
+            if metadata_value['operator'] == '<':
+                result = recorded_value < metadata_value['value']
+            if metadata_value['operator'] == '<=':
+                result = recorded_value <= metadata_value['value']
+            if metadata_value['operator'] == '>':
+                result = recorded_value > metadata_value['value']
+            if metadata_value['operator'] == '>=':
+                result = recorded_value >= metadata_value['value']
+        except TypeError:
+            # Undefined comparison (missing value or incomparable types) is not a match
+            return False
 
         return result
 
